@@ -98,6 +98,44 @@ def Env.find (env : Env) (n : String) : Option Decl :=
   | [] => none
   | d :: rest => if d.name = n then some d else Env.find rest n
 
+/-- resolve `type A = B` chains and find the declaration a name denotes -/
+def Env.resolve (env : Env) : Nat → String → Option Decl
+  | 0, _ => none
+  | f + 1, n =>
+    match env.find n with
+    | some d => (match d.body with | .alias t => Env.resolve env f t | _ => some d)
+    | none => none
+
+mutual
+  /-- does the default LITERAL the generator prints for a field of type `ty` type-check?
+      (the fragment of `dumpDefaultValue` the model covers; everything else: no) -/
+  def literalOK (env : Env) : Nat → GoTy → Json → Bool
+    | 0, _, _ => false
+    | f + 1, ty, j =>
+      match ty, j with
+      | .string, .str _ => true
+      | .bool, .bool _ => true
+      | .float64, .num _ => true
+      | .int k, .num q => q.den = 1 && k.inRangeB q.num
+      | .iface, _ => true
+      | .map _, .obj [] => true
+      | .slice t, .arr xs => literalOKAll env f t xs
+      | .named n, j =>
+          (match env.resolve 8 n with
+           | some d => (match d.body with
+               | .enum _ false _ _ _ => literalOK env f d.ty j
+               | .plain _ _ => (match d.ty with
+                   | .strct _ => false
+                   | t => literalOK env f t j)
+               | _ => false)
+           | none => false)
+      | _, _ => false
+  def literalOKAll (env : Env) : Nat → GoTy → List Json → Bool
+    | 0, _, _ => false
+    | _ + 1, _, [] => true
+    | f + 1, t, x :: xs => literalOK env f t x && literalOKAll env f t xs
+end
+
 structure Import where
   path : String
   alias : String := ""
